@@ -89,13 +89,28 @@ func (e *Encoder) writeValue(val reflect.Value, tagType byte) error {
 		}
 		return err
 	case TagShort:
-		return writeInt16(e.w, int16(val.Int()))
+		switch val.Kind() {
+		case reflect.Uint16:
+			return writeInt16(e.w, int16(val.Uint()))
+		default:
+			return writeInt16(e.w, int16(val.Int()))
+		}
 	case TagInt:
-		return writeInt32(e.w, int32(val.Int()))
+		switch val.Kind() {
+		case reflect.Uint32:
+			return writeInt32(e.w, int32(val.Uint()))
+		default:
+			return writeInt32(e.w, int32(val.Int()))
+		}
 	case TagFloat:
 		return writeInt32(e.w, int32(math.Float32bits(float32(val.Float()))))
 	case TagLong:
-		return writeInt64(e.w, val.Int())
+		switch val.Kind() {
+		case reflect.Uint64:
+			return writeInt64(e.w, int64(val.Uint()))
+		default:
+			return writeInt64(e.w, val.Int())
+		}
 	case TagDouble:
 		return writeInt64(e.w, int64(math.Float64bits(val.Float())))
 	case TagByteArray, TagIntArray, TagLongArray:
